@@ -237,6 +237,35 @@ func runC19(c *Ctx) {
 			}
 			p.Close()
 		}
+		// the property's own statement: what is advertised is what the last VALID request configured (an invalid request
+		// changes nothing); the default is the three supported extensions
+		data := map[string]string{names[0]: "1", names[1]: "1", names[2]: "2"}
+		want := []string{names[0], names[1], names[2]}
+		for ci, call := range seq {
+			valid := true
+			for _, x := range call {
+				if _, ok := data[x]; !ok {
+					valid = false
+				}
+			}
+			if valid {
+				want = append([]string(nil), call...)
+			}
+			if got := oks[ci] == "1"; got != valid {
+				ok, why = false, fmt.Sprintf("SetSFTPExtensions(%v) returned ok=%v", call, got)
+			}
+		}
+		var wp []string
+		for _, x := range want {
+			wp = append(wp, hx(x)+":"+hx(data[x]))
+		}
+		wants := strings.Join(wp, "+")
+		if wants == "" {
+			wants = "-"
+		}
+		if adv != wants {
+			ok, why = false, fmt.Sprintf("advertised %s but configured %s (sequence %s)", adv, wants, enc(seq))
+		}
 		c.Obs(n, kvs("oks", strings.Join(oks, "")), kvs("adv", adv), kvs("cli", cli))
 		// independent statement: the advertised list equals the last valid call's list (or the default)
 		c.Oracle(n, ok, why)
